@@ -70,6 +70,15 @@ def gen_cases(rng, tier):
         ents = m.get(key) or []
         if ents:
           ents[-1][-1] = spec.gen_nested_same_start(rng)[0]
+    if i % 7 == 2:
+      # two entries that use one form with parameter lists differing only by -1 versus -2 (hash(-1) == hash(-2) in CPython):
+      # each entry means its own parameters
+      wrap_ = lambda c_: {"k": "sum", "a": [{"k": "form", "name": "polynomial", "p": [0.5, 0.25]}, {"k": "form", "name": "constant", "p": [c_]}]}
+      for key in ("pair", "density", "embed"):
+        ents = m.get(key) or []
+        if len(ents) >= 2:
+          a_, b_ = rng.choice([(-1, -2), (-1.0, -2.0), (-2, -1)])
+          ents[0][-1], ents[1][-1] = wrap_(a_), wrap_(b_)
     shared = 0
     if i % 5 == 3:
       shared = spec.share_leading_range(rng, m)
